@@ -14,6 +14,37 @@ class Lookup:
         self.name = "OFX Home FI"
 
 
+class _Resp:
+    def __init__(self, data):
+        self.data = data
+
+    def __enter__(self):
+        return self
+
+    def __exit__(self, *a):
+        return False
+
+    def read(self):
+        return self.data
+
+
+def home_record(lookup):
+    """what www.ofxhome.com answers for the institution (the library's own record parser reads it): the texts as OFX Home
+    serves them - indented, on lines of their own, '&' escaped; no such institution: an empty answer (not XML)"""
+    from xml.sax.saxutils import escape
+    if lookup is None:
+        raise urllib_error.URLError("no such institution")
+    pad = getattr(lookup, "pad", ("\n    ", "\n  "))
+    f = lambda tag: f"<{tag}>{pad[0]}{escape(getattr(lookup, tag))}{pad[1]}</{tag}>" if getattr(lookup, tag, None) is not None else f"<{tag}></{tag}>"
+    return ('<institution id="424">' + f("name") + f("fid") + f("org") + f("url") + f("brokerid") +
+            "<ofxfail>0</ofxfail><sslfail>0</sslfail><lastofxvalidation>2019-04-29 23:08:45</lastofxvalidation>"
+            "<lastsslvalidation>2019-04-29 23:08:44</lastsslvalidation>"
+            '<profile finame="OFX Home FI" signonmsgset="true" bankmsgset="true"/></institution>').encode()
+
+
+import urllib.error as urllib_error
+
+
 class Sandbox:
     def __enter__(self):
         import logging
@@ -36,7 +67,7 @@ class Sandbox:
         g.USERCFG = g.UserConfig()
         g.USERCFG.read([g.CONFIGPATH, g.USERCONFIGPATH])
         ns = g.make_argparser().parse_args(argv)
-        with patch("ofxtools.ofxhome.lookup", return_value=lookup), patch("builtins.print"):
+        with patch("urllib.request.urlopen", lambda *a, **k: _Resp(home_record(lookup))), patch("builtins.print"):
             merged = g.merge_config(ns, g.USERCFG)
         if merged["write"]:
             import warnings
